@@ -1004,12 +1004,16 @@ func (dsc *dataStoreCommand) expireTime(keyName string) (expiration time.Time, v
 }
 
 func (dsc *dataStoreCommand) persist(keyName string) (output respValue) {
-	sk, exists := dsc.getKeyObject(keyName)
+	dsc.lock()
+	defer dsc.unlock()
+
+	sk, exists := dsc.getKeyObjectUnlocked(keyName)
 	if !exists || !sk.expiresAt.Before(maxTime) {
 		output.data = respInt(0)
 		return
 	}
 	sk.expiresAt = maxTime
+	dsc.keyModifiedUnlocked(keyName)
 	output.data = respInt(1)
 	return
 }
